@@ -39,7 +39,7 @@ func (c *Ctx) newFacts(fn *ssa.Function) *Facts {
 	f.ord = &ordA{c: c, retTainted: map[*ssa.Function]bool{}, pureMemo: map[*ssa.Function]int{}}
 	count := map[string]int{}
 	conds := map[string][]ssa.Value{}
-	for _, b := range fn.Blocks {
+	for _, b := range c.blocks(fn) {
 		if len(b.Instrs) == 0 {
 			continue
 		}
@@ -49,7 +49,7 @@ func (c *Ctx) newFacts(fn *ssa.Function) *Facts {
 			conds[l.Term] = append(conds[l.Term], iff.Cond)
 		}
 	}
-	for _, b := range fn.Blocks {
+	for _, b := range c.blocks(fn) {
 		if len(b.Instrs) == 0 {
 			continue
 		}
